@@ -589,23 +589,21 @@ func (in *Interp) iterOf(n *Node, v interface{}) iter {
 		in.fail(n, "range-kind", "range over nil")
 	}
 	switch r := v.(type) {
-	case *IdxRanger:
-		i := 0
+	case *IdxRanger: // custom rangers keep their own cursor: the model drives the very same fixture
 		return iter{true, func() (interface{}, interface{}, bool) {
-			if i >= len(r.Items) {
+			k, v, end := r.Range()
+			if end {
 				return nil, nil, false
 			}
-			i++
-			return i - 1, r.Items[i-1], true
+			return k.Interface(), v.Interface(), true
 		}}
 	case *PlainRanger:
-		i := 0
 		return iter{false, func() (interface{}, interface{}, bool) {
-			if i >= len(r.Items) {
+			_, v, end := r.Range()
+			if end {
 				return nil, nil, false
 			}
-			i++
-			return nil, r.Items[i-1], true
+			return nil, v.Interface(), true
 		}}
 	case intsRange:
 		i := int64(0)
